@@ -9,7 +9,7 @@ use crate::util::{guard, par_map, Kv};
 
 pub fn meta(_ctx: &Ctx) -> Meta {
     Meta {
-        rule: "6 base networks (dense ranges; shape-preserving conv / deconv ranges; conv(k2,p1)+pool(k2,s1) composite; max-pool as range entry; flat dense output re-read as 1x3x3 at the range entry; range ending in a layer that is flattened for a following dense layer) x EVERY range a <= b whose output shape equals the input shape of a (start / middle / end) x k in 1..3 x all 5 accumulations x input skips on/off (with input skips also under a multiplicative / overwrite SKIP-connection accumulation, which must not matter) x 2 exact integer valuations, plus pairs of disjoint ranges. Oracles: reference interpreter y_0=f(x_a), y_t=f(y_{t-1}[+x_a]), out=comb(y_0;y_1..y_k); with overwrite (no input skips) bit-equality with the plain network in which layers a..b are repeated k+1 times with the same weights. Non-trivial = reference output has >= 2 distinct non-zero entries".into(),
+        rule: "6 base networks (dense ranges; shape-preserving conv / deconv ranges; conv(k2,p1)+pool(k2,s1) composite; max-pool as range entry; flat dense output re-read as 1x3x3 at the range entry; range ending in a layer that is flattened for a following dense layer) x EVERY range a <= b whose output shape equals the input shape of a (start / middle / end) x k in 1..3 (4, 5, 6, 9 for two ranges per network) x all 5 accumulations x input skips on/off (with input skips also under a multiplicative / overwrite SKIP-connection accumulation, which must not matter) x 2 exact integer valuations, plus pairs of disjoint ranges. Oracles: reference interpreter y_0=f(x_a), y_t=f(y_{t-1}[+x_a]), out=comb(y_0;y_1..y_k); with overwrite (no input skips) bit-equality with the plain network in which layers a..b are repeated k+1 times with the same weights. Non-trivial = reference output has >= 2 distinct non-zero entries".into(),
         bound: "k <= 3, ranges of <= 3 layers, planes 3x3".into(),
         exhaustive: true,
         assumptions: vec!["tolerance 2e-6*max|reference| (mean over 3 operands is not exact); the unrolled-network differential is bit-exact".into()],
@@ -51,8 +51,10 @@ pub fn nets() -> Vec<Net> {
     let mut out = Vec::new();
     for base in bases() {
         let rs = ranges(&base);
-        for &(a, b) in &rs {
-            for k in 1..=3usize {
+        for (ri, &(a, b)) in rs.iter().enumerate() {
+            // beyond the small bound: 4, 5, 6 and 9 iterations for the first two ranges of every base network
+            let ks: Vec<usize> = if ri < 2 { vec![1, 2, 3, 4, 5, 6, 9] } else { vec![1, 2, 3] };
+            for k in ks {
                 for acc in A5 {
                     for inskips in [false, true] {
                         let mut n = base.clone();
@@ -129,6 +131,9 @@ pub fn check(seed: u64, case: &Kv, rep: &mut Report) {
         Ok(ok) => {
             if ok.nontrivial {
                 rep.nontrivial += 1;
+            }
+            if ok.overflow {
+                rep.count("reference_outside_f32_range_skipped", 1);
             }
             ok.lib_out
         }
